@@ -16,8 +16,8 @@ import (
 
 func init() {
 	eng.Register(&eng.Check{
-		ID: "C07",
-		Rule: "E1/E2 differential over selector spellings: every path of 1..3 parts over the part alphabet {a, A, b, 0, 01, a/b, a~b, a.b, 'a b', ' a', e-acute, \"\", ~1, ~0, x~01 (keys that themselves contain escape-like text)} that is expressible in >=2 spellings x EVERY combination of per-part spelling (.ident, .digits, [\"..\"], [`..`], [ \"..\" ] with inner blanks, escape spelling, mixed within one selector; whole-selector JSON pointer with ~0/~1 escapes) x 8 operators x documents (nested string-keyed maps of depth 1..3 with a distinct leaf per path, struct/tag and list variants), also as quantified collection and inside quantifier bodies (alias-relative); oracle: grammar.Parse yields exactly the intended Path for every spelling and Evaluate's outcome is identical across the spellings of one path on every document; distinct leaves make case-/blank-variants select different keys. Distinct by construction; non-trivial = a (path, operator) group with >=2 spellings compared.",
+		ID:          "C07",
+		Rule:        "E1/E2 differential over selector spellings: every path of 1..3 parts over the part alphabet {a, A, b, 0, 01, a/b, a~b, a.b, 'a b', ' a', e-acute, \"\", ~1, ~0, x~01 (keys that themselves contain escape-like text)} that is expressible in >=2 spellings x EVERY combination of per-part spelling (.ident, .digits, [\"..\"], [`..`], [ \"..\" ] with inner blanks, escape spelling, mixed within one selector; whole-selector JSON pointer with ~0/~1 escapes) x 8 operators x documents (nested string-keyed maps of depth 1..3 with a distinct leaf per path, struct/tag and list variants), also as quantified collection and inside quantifier bodies (alias-relative); oracle: grammar.Parse yields exactly the intended Path for every spelling and Evaluate's outcome is identical across the spellings of one path on every document; distinct leaves make case-/blank-variants select different keys. Distinct by construction; non-trivial = a (path, operator) group with >=2 spellings compared.",
 		Assumptions: []string{"outcome classes only", "bounded part alphabet and depth"},
 		Run:         runC07,
 	})
@@ -198,7 +198,9 @@ func runC07(c *eng.Ctx) {
 		{"is not empty", func(s string, p []string) string { return s + " is not empty" }},
 		{"matches", func(s string, p []string) string { return s + " matches `^va` " }},
 		{"not matches", func(s string, p []string) string { return s + " not matches `\\|a\\$$`" }},
-		{"any-collection", func(s string, p []string) string { return "any " + s + " as k, v { v == " + RenderLit(leafID(append(append([]string{}, p...), "a~b"))) + " }" }},
+		{"any-collection", func(s string, p []string) string {
+			return "any " + s + " as k, v { v == " + RenderLit(leafID(append(append([]string{}, p...), "a~b"))) + " }"
+		}},
 		{"all-collection", func(s string, p []string) string { return "all " + s + " as k { k != `zz` }" }},
 	}
 	for pi, path := range paths {
